@@ -173,6 +173,21 @@ CLAIMED = {
               "and variant flags, z3 QF_BV",
     note=TB + "; unit contract contracts/units/memory.py assumed; ignore_feedback=True not claimed; the DTR0-not-advancing "
          "variant is applied to values up to 8 bytes"),
+ "C07": dict(
+    category="proof",
+    text="PROVED: the binary search _find_next is verified for all 0 <= low <= high < 2^24 against an abstract search "
+         "contract (least random address m among the searching units, whether it is shared, next distinct address): it "
+         "returns m when unique, 'clash' when shared, None when m > high, leaves the population unchanged, loads the search "
+         "address with high, and terminates (recursive calls go through the function's own contract whose precondition "
+         "includes a strictly shrinking range). BOUNDED (not proved): the whole Commissioning sequence is driven natively "
+         "against the executable population contract for every population of <= 3 units, pre-existing addresses, five "
+         "permitted sets, both modes, dry run, two arbitrary draws per unit plus faulty units, checking distinct / permitted / "
+         "unused addresses, untouched non-participants, dry run, final TERMINATE and ProgramShortAddressFailure.",
+    design_ref="DESIGN.md 6 (C07)",
+    technique="contract-based deductive verification of _find_next (recursion via its own contract + variant), z3 QF_BV; "
+              "bounded exhaustive native execution for the Commissioning clauses (labelled bounded)",
+    note=TB + "; unit contracts contracts/units/addressing.py assumed; the Commissioning-level clauses are decided only by "
+         "the bounded stand-in (<= 3 units); termination of the restart loop under fairness is undecided"),
 }
 
 NA_REASON = "check under construction in this round (no obligations built yet); see DESIGN.md section 6"
